@@ -208,3 +208,72 @@ func DSTs() [][]byte {
 	}
 	return [][]byte{[]byte("QUUX-V01-CS02-verif-c13"), mk(255), mk(256)}
 }
+
+// KClass maps a scalar name of Scalars to its input class (used in violation
+// keys, which must name a class of inputs rather than one value).
+func KClass(name string) string {
+	switch {
+	case name == "0":
+		return "k=0"
+	case allDigits(name):
+		return "k=small"
+	case len(name) >= 2 && name[:2] == "2^" && name != "2^w-n":
+		return "k~2^j"
+	case name == "max" || name == "max-1" || name == "2^w-n":
+		return "k~max"
+	case len(name) >= 2 && name[:2] == "0x":
+		return "k=pattern"
+	case len(name) >= 4 && (name[:4] == "shak" || name[:4] == "seed"):
+		return "k=random"
+	}
+	return "k~order" // (n+-1)/2, n-3..n+3, multiples of n and their neighbours
+}
+
+func allDigits(s string) bool {
+	for _, c := range s {
+		if c < '0' || c > '9' {
+			return false
+		}
+	}
+	return s != ""
+}
+
+// PClass maps a point name of PointLogs (or a harness-specific name) to its class.
+func PClass(name string) string {
+	switch {
+	case name == "O":
+		return "P=O"
+	case len(name) >= 2 && name[:2] == "NS":
+		return "P=outside-subgroup"
+	case len(name) >= 2 && (name[0] == '[' || name[:2] == "-[") && (name[1] == '(' || (len(name) > 2 && name[2] == '(')):
+		return "P=half"
+	case name[0] == '[' || (len(name) >= 2 && name[:2] == "-["):
+		return "P=random"
+	}
+	return "P=+-kG"
+}
+
+// CoarseKey rewrites the '|'-separated tokens "k=<scalar name>" and
+// "P=<point name>" of a violation class into input classes; every other
+// token (operation variants, "Q=<name>", relations such as m=n) is kept.
+func CoarseKey(class string) string {
+	out := ""
+	start := 0
+	for i := 0; i <= len(class); i++ {
+		if i == len(class) || class[i] == '|' {
+			tok := class[start:i]
+			switch {
+			case len(tok) > 2 && tok[:2] == "k=":
+				tok = KClass(tok[2:])
+			case len(tok) > 2 && tok[:2] == "P=":
+				tok = PClass(tok[2:])
+			}
+			if out != "" {
+				out += "|"
+			}
+			out += tok
+			start = i + 1
+		}
+	}
+	return out
+}
